@@ -78,9 +78,10 @@ package subscribe
 //@ func (*Server).processSubscription$2
 //@   props C05 C12
 //@   requires l != nil && StreamClientWf(c)
-//@   modifies captured err, ghost leafInserts, ghost lastInsertWasSync
+//@   modifies captured err, ghost leafInserts, ghost lastInsertWasSync, ghost leafOffers
 //@   preserves syncInserts
 //@   preserves syncOffers
+//@   ensures [every-visited-leaf-is-offered-until-an-insert-fails C05 C04] old(err) == nil ==> leafOffers == old(leafOffers) + 1
 
 // processSubscription: walk, then exactly one sync marker, inserted last; on a
 // path error no sync marker at all; updates_only skips the walk.
@@ -88,7 +89,7 @@ package subscribe
 //@   props C05 C04 C12
 //@   effect walks := walks + 1
 //@   requires s != nil && s.c != nil && StreamClientWf(c)
-//@   modifies ghost syncInserts, ghost leafInserts, ghost lastInsertWasSync, ghost syncOffers, sends(c.errC)
+//@   modifies ghost syncInserts, ghost leafInserts, ghost lastInsertWasSync, ghost syncOffers, ghost leafOffers, sends(c.errC)
 //@   invariant 0: syncInserts == old(syncInserts) && syncOffers == old(syncOffers) && err == nil && sends(c.errC) == old(sends(c.errC))
 //@   ensures [at-most-one-sync C05] syncInserts == old(syncInserts) || (syncInserts == old(syncInserts) + 1 && lastInsertWasSync)
 //@   ensures [marker-queued-unless-an-error-is-reported C05 C04] sends(c.errC) == old(sends(c.errC)) ==> syncOffers == old(syncOffers) + 1 && syncInserts == old(syncInserts) + 1
@@ -151,7 +152,7 @@ package subscribe
 //@ func (*Server).processPollingSubscription
 //@   props C05 C12
 //@   requires s != nil && s.c != nil && StreamClientWf(c)
-//@   modifies ghost syncInserts, ghost leafInserts, ghost lastInsertWasSync, ghost recvs, ghost walks, ghost syncOffers, ghost lastRecvErr, sends(c.errC)
+//@   modifies ghost syncInserts, ghost leafInserts, ghost lastInsertWasSync, ghost recvs, ghost walks, ghost syncOffers, ghost leafOffers, ghost lastRecvErr, ghost lastRecvMsg, sends(c.errC)
 //@   invariant 0: [one-walk-per-trigger C05] walks == old(walks) + 1 + recvs - old(recvs)
 //@   ensures [ends-only-on-a-closed-queue-or-a-stream-error C05] closed(c.queue.closed) || lastRecvErr != nil || lastRecvErr == io.EOF
 //@   ensures [only-eof-and-close-end-it-cleanly C05] lastsent(c.errC) == nil ==> closed(c.queue.closed) || lastRecvErr == io.EOF
@@ -192,25 +193,45 @@ package subscribe
 //@   ensures res0 != nil
 
 // grpc codes: 3 InvalidArgument, 5 NotFound, 7 PermissionDenied, 16 Unauthenticated.
+// The request an RPC is about is the first message received on its stream (ghosts lastRecvMsg / lastRecvErr of the
+// stream stub). It is served when it is a subscription with a prefix and a target the cache knows (knownTarget: the
+// answer of Cache.HasTarget) that the ACL allows, in one of the three modes (0 STREAM, 1 ONCE, 2 POLL).
+//@ pred ReqTarget(r *pb.SubscribeRequest) := SubList(r).Prefix.Target
+//@ pred ValidReq(r *pb.SubscribeRequest) := RequestWf(r) && SubList(r).Prefix != nil && ReqTarget(r) != ""
+//@ pred Served(r *pb.SubscribeRequest) := !aclFailed && lastRecvErr == nil && ValidReq(r) && knownTarget(ReqTarget(r))
+//@   && (ReqTarget(r) == "*" || lastVerdict) && 0 <= SubList(r).Mode && SubList(r).Mode <= 2
 //@ func (*Server).Subscribe
-//@   props C07 C04 C05 C12
+//@   props C07 C04 C05 C08 C14 C12
 //@   requires s != nil && s.c != nil && s.m != nil && s.m.tree != nil && TrieWf() && stream != nil && SyncRespWf() && !tdelSeen && !aclFailed && !registered
 //@   modifies *
 //@   ensures [unauthenticated-before-anything C07] aclFailed ==> res0 != nil && errcode(res0) == 16 && recvs == old(recvs) && sends == old(sends) && spawns() == old(spawns())
 //@   ensures [denied-before-any-goroutine C07] aclChecks == old(aclChecks) + 1 && !lastVerdict ==> res0 != nil && errcode(res0) == 7
 //@     && sends == old(sends) && spawns() == old(spawns()) && !registered
+//@   ensures [request-read-once C05] !aclFailed ==> recvs == old(recvs) + 1
+//@   ensures [a-valid-request-for-a-known-allowed-target-is-served C04 C05] spawns() == old(spawns()) ==> !Served(lastRecvMsg)
+//@   ensures [nothing-started-for-a-refused-request C07 C12] !Served(lastRecvMsg) ==> spawns() == old(spawns()) && !registered && (res0 != nil || lastRecvErr == io.EOF)
+//@   ensures [unknown-target-is-not-found C14] spawns() == old(spawns()) && !aclFailed && lastRecvErr == nil && ValidReq(lastRecvMsg) && !knownTarget(ReqTarget(lastRecvMsg)) ==> res0 != nil && errcode(res0) == 5
+//@   ensures [invalid-request-refused C12] spawns() == old(spawns()) && !aclFailed && lastRecvErr == nil && !ValidReq(lastRecvMsg) ==> res0 != nil && errcode(res0) == 3
+//@   ensures [stream-error-returned C05] !aclFailed && lastRecvErr != nil && lastRecvErr != io.EOF ==> res0 == lastRecvErr
+//@   ensures [queue-closed-when-the-rpc-ends C08 C05] spawns() != old(spawns()) ==> closed(c.queue.closed)
 //@   assert at go (*Server).Subscribe$1#0: [acl-gate C07] c.target == "*" || (lastVerdict && lastChecked == c.target)
 //@   assert at go (*Server).processPollingSubscription#0: [acl-gate C07] c.target == "*" || (lastVerdict && lastChecked == c.target)
 //@   assert at go (*Server).processSubscription#0: [acl-gate C07] c.target == "*" || (lastVerdict && lastChecked == c.target)
 //@   assert at go (*Server).processSubscription#0: [register-before-walk C04] registered
+//@   assert at go (*Server).processSubscription#0: [no-walk-for-updates-only C04] !UpdatesOnly(c.sr)
 //@   assert at go (*Server).sendStreamingResults#0: [acl-gate C07] c.target == "*" || (lastVerdict && lastChecked == c.target)
+//@   assert at go (*Server).sendStreamingResults#0: [serves-the-received-request C05 C04] c.sr == lastRecvMsg && c.target == ReqTarget(c.sr) && Served(c.sr)
+//@   assert at go (*Server).sendStreamingResults#0: [one-producer-per-rpc C05 C04] spawns() == old(spawns()) + ite(SubList(c.sr).Mode == 0 && UpdatesOnly(c.sr), 0, 1)
+//@   assert at go (*Server).sendStreamingResults#0: [updates-only-stream-gets-its-sync-from-the-rpc C04] SubList(c.sr).Mode == 0 ==> syncOffers == old(syncOffers) + ite(UpdatesOnly(c.sr), 1, 0) && registered
 //@   assert at call addSubscription#0: [acl-gate C07] c.target == "*" || (lastVerdict && lastChecked == c.target)
+//@   assert at call (*Cache).HasTarget#0: [asks-about-the-requested-target C14] arg1 == ReqTarget(lastRecvMsg)
 
 // The ONCE goroutine: walk, then close the queue (the sender drains it first).
 //@ func (*Server).Subscribe$1
 //@   props C05 C12
 //@   requires s != nil && s.c != nil && StreamClientWf(c)
 //@   modifies *
+//@   ensures [once-queue-closed-after-the-walk C05] closed(c.queue.closed) && walks == old(walks) + 1
 
 // ---- matching (C06) -----------------------------------------------------------
 // The subscription path registered with the matcher: target and origin of the
